@@ -34,6 +34,9 @@ CONSTANTS KeyTypes,         \* host key types, e.g. {"ed", "rsa"}
           CompareFullKey,   \* TRUE: Transport.connect compares type and key bytes (code as read); FALSE: type only
           ConGss, SshGss,   \* GSS-API flags the caller passes to Transport.connect / SSHClient.connect: subsets of
                             \* {"none", "kex", "auth", "both"} (gss_kex / gss_auth requested).  The peer never does GSS.
+          HashCachedPerSalt, \* seeded error (FALSE = code as read): see CodeMatch
+          SeqTargets,       \* two-connection sequences through one SSHClient: the second name ("other" / "otherhost"; {} = none)
+          SeqKeyTypes,      \* ... and the key types used in them
           GssFallback,      \* FALSE: Transport.connect with gss_kex requested attempts gssapi-keyex only (code as read);
                             \* TRUE: it falls back to password / public key when no GSS key exchange took place
           AskPolicy         \* TRUE: SSHClient consults the missing-host-key policy for unknown hosts (code as read)
@@ -52,23 +55,31 @@ Entry  == [name : Names, hashed : BOOLEAN, key : Key]
 Range(s) == {s[i] : i \in DOMAIN s}
 
 (* ------------------------------------------------------------------ decisions *)
-\* client.py: server_hostkey_name
-LookupName(port) == IF port = "default" THEN "h" ELSE "[h]:p"
-\* HostKeys.lookup: an entry matches by its plain name or by the hash of the name (hashing is transparent)
+\* client.py: server_hostkey_name.  c.port: "default" = the host on port 22, "other" = the same host on another port,
+\* "otherhost" = a different host on port 22
+LookupName(port) == CASE port = "default" -> "h" [] port = "other" -> "[h]:p" [] OTHER -> "other"
+\* the STATEMENT's notion: an entry is for a name if it carries that name, in plain or hashed form
 Matching(es, name) == SelectSeq(es, LAMBDA e : e.name = name)
-\* `our_server_keys`: the system host keys win over the user's
-Ours(c) == LET s == Matching(c.sys, LookupName(c.port))
-           IN IF s # <<>> THEN s ELSE Matching(c.usr, LookupName(c.port))
-\* every key either table holds for this server (statement level: "a host key known to SSHClient")
-KnownKeys(c) == {e.key : e \in Range(Matching(c.sys, LookupName(c.port))) \cup Range(Matching(c.usr, LookupName(c.port)))}
+\* HostKeys.lookup as the code does it.  `first` = the first name that was looked up through this table object before
+\* ("" = none).  Code as read: hashing is transparent and earlier lookups leave no trace.  HashCachedPerSalt (seeded
+\* error): the HMAC of a hashed line is remembered per salt, so a hashed line keeps answering for the first name.
+CodeMatch(es, name, first) ==
+  SelectSeq(es, LAMBDA e : IF HashCachedPerSalt /\ e.hashed /\ first # "" THEN e.name = first ELSE e.name = name)
 Without(seq, t) == SelectSeq(seq, LAMBDA x : x # t)
+\* An environment e = what an SSHClient object carries from its earlier connection into this one:
+\*   usr  the user table now (AutoAddPolicy appends to it), fs / fu  first name looked up in the system / user table
+Env0(c) == [usr |-> c.usr, fs |-> "", fu |-> ""]
+\* `our_server_keys`: the system host keys win over the user's
+OursE(c, e) == LET s == CodeMatch(c.sys, LookupName(c.port), e.fs)
+               IN IF s # <<>> THEN s ELSE CodeMatch(e.usr, LookupName(c.port), e.fu)
 \* host key algorithm preference the client announces
-Pref(c) == IF c.api = "connect" /\ c.expect # NoKey THEN <<c.expect.t>>
-           ELSE IF c.api = "sshclient" /\ Ours(c) # <<>> THEN <<Ours(c)[1].key.t>> \o Without(DefaultOrder, Ours(c)[1].key.t)
-           ELSE DefaultOrder
+PrefE(c, e) == IF c.api = "connect" /\ c.expect # NoKey THEN <<c.expect.t>>
+               ELSE IF c.api = "sshclient" /\ OursE(c, e) # <<>>
+                      THEN <<OursE(c, e)[1].key.t>> \o Without(DefaultOrder, OursE(c, e)[1].key.t)
+               ELSE DefaultOrder
 \* negotiation: the client's first type the server holds
-Usable(c) == SelectSeq(Pref(c), LAMBDA t : \E k \in c.server : k.t = t)
-Shown(c) == IF Usable(c) = <<>> THEN NoKey ELSE CHOOSE k \in c.server : k.t = Usable(c)[1]
+UsableE(c, e) == SelectSeq(PrefE(c, e), LAMBDA t : \E k \in c.server : k.t = t)
+ShownE(c, e) == IF UsableE(c, e) = <<>> THEN NoKey ELSE CHOOSE k \in c.server : k.t = UsableE(c, e)[1]
 \* SubDict.get(type): the first matching entry of that type
 FirstOfType(es, t) == LET m == SelectSeq(es, LAMBDA e : e.key.t = t) IN IF m = <<>> THEN NoKey ELSE m[1].key
 PolicyAccepts(p) == p \in {"AutoAdd", "Warning", "CustomAccept"}
@@ -78,7 +89,7 @@ GssAuth(c) == c.gss \in {"auth", "both"}
 \* presented `k`:  "accept" = go on to password / public-key authentication;  "gss" = only a GSS-API method is
 \* attempted (it cannot succeed against this peer and carries no password / signature / responses);
 \* "gssfirst" = SSHClient tries gssapi-with-mic, then the ordinary credentials
-Decision(c, k) ==
+DecisionE(c, k, e) ==
   CASE c.api = "connect" ->
          \* `if (hostkey is not None) and not gss_kex`: the comparison is skipped when GSS kex was REQUESTED
          IF c.expect # NoKey /\ ~GssKex(c) /\ ~(k.t = c.expect.t /\ (CompareFullKey => k = c.expect)) THEN "badhostkey"
@@ -87,10 +98,31 @@ Decision(c, k) ==
          ELSE "accept"
     [] c.api = "sshclient" ->
          \* `if not self._transport.gss_kex_used`: always checked against this peer
-         IF Ours(c) = <<>> THEN (IF AskPolicy THEN "policy" ELSE "accept")
-         ELSE IF FirstOfType(Ours(c), k.t) # k THEN "badhostkey"
+         IF OursE(c, e) = <<>> THEN (IF AskPolicy THEN "policy" ELSE "accept")
+         ELSE IF FirstOfType(OursE(c, e), k.t) # k THEN "badhostkey"
          ELSE IF GssAuth(c) THEN "gssfirst" ELSE "accept"
     [] OTHER -> "accept"
+\* c.prev (at most one element [port, server]): an earlier connection made through the SAME SSHClient object (tables
+\* loaded once, same policy) to another name.  What it leaves behind: the names looked up, and - when the policy was
+\* consulted and is AutoAddPolicy - a new plain entry in the user table.
+P0(c) == [c EXCEPT !.prev = <<>>, !.port = c.prev[1].port, !.server = c.prev[1].server]
+Env(c) ==
+  IF c.prev = <<>> THEN Env0(c)
+  ELSE LET p  == P0(c)
+           k0 == ShownE(p, Env0(p))
+           d0 == IF k0 = NoKey THEN "nokex" ELSE DecisionE(p, k0, Env0(p))
+           n0 == LookupName(p.port)
+       IN [usr |-> IF d0 = "policy" /\ c.policy = "AutoAdd" THEN Append(c.usr, [name |-> n0, hashed |-> FALSE, key |-> k0]) ELSE c.usr,
+           fs  |-> n0,
+           fu  |-> IF CodeMatch(c.sys, n0, "") = <<>> THEN n0 ELSE ""]      \* the user table is consulted only then
+Ours(c) == OursE(c, Env(c))
+Pref(c) == PrefE(c, Env(c))
+Usable(c) == UsableE(c, Env(c))
+Shown(c) == ShownE(c, Env(c))
+Decision(c, k) == DecisionE(c, k, Env(c))
+\* every key either table holds NOW for this server (statement level: "a host key known to SSHClient"); earlier
+\* lookups are no part of it - the decision for this connection must not depend on them
+KnownKeys(c) == {e.key : e \in Range(Matching(c.sys, LookupName(c.port))) \cup Range(Matching(Env(c).usr, LookupName(c.port)))}
 \* the STATEMENT: who must not get anything
 MustRefuse(c, k) ==
   CASE c.api = "connect"   -> c.expect # NoKey /\ k # c.expect
@@ -116,7 +148,21 @@ NoArm == [m |-> "none", early |-> FALSE, stage |-> 0]
 SeqsUpTo(S, n) == UNION {[1..k -> S] : k \in 0..n}
 
 TrivialCfg(api, srv) == [api |-> api, expect |-> NoKey, sys |-> <<>>, usr |-> <<>>, policy |-> "Reject", port |-> "default", server |-> srv,
-                         gss |-> "none"]
+                         gss |-> "none", prev |-> <<>>]
+\* Two connections through one SSHClient object.  Host A = the host on port 22, its right key kA in the table (plain or
+\* hashed line); host B = another name that is unknown, or known (plain / hashed line) with ANOTHER key of the same
+\* type; both servers present kA (the impostor case for B).  Both orders, Reject and AutoAdd, system or user table.
+SeqConfigs ==
+  {LET kA == K(kt, 1)
+       eA == [name |-> "h", hashed |-> ha, key |-> kA]
+       tb == IF bk = "unknown" THEN <<eA>> ELSE <<eA, [name |-> LookupName(b), hashed |-> (bk = "hashed"), key |-> K(kt, 2)]>>
+       first  == IF order = "AB" THEN "default" ELSE b
+       second == IF order = "AB" THEN b ELSE "default"
+   IN [TrivialCfg("sshclient", {kA}) EXCEPT !.sys = IF tab = "sys" THEN tb ELSE <<>>, !.usr = IF tab = "usr" THEN tb ELSE <<>>,
+                                            !.policy = pol, !.port = second, !.prev = <<[port |-> first, server |-> {kA}]>>]
+   : kt \in SeqKeyTypes, b \in SeqTargets, ha \in BOOLEAN, bk \in {"unknown", "plain", "hashed"},
+     order \in {"AB", "BA"}, pol \in {"Reject", "AutoAdd"}, tab \in {"sys", "usr"}}
+
 Configs ==
   (IF "raw" \in Apis THEN {TrivialCfg("raw", s) : s \in ServerSets} ELSE {})
   \cup (IF "connect" \in Apis
@@ -129,6 +175,7 @@ Configs ==
                     IF Ours(base) = <<>> THEN {[base EXCEPT !.policy = p] : p \in Policies} ELSE {base}
                  : s \in ServerSets, port \in {"default", "other"}, split \in 0..Len(all), g \in SshGss}
                : all \in SeqsUpTo(Entry, MaxEntries)}
+               \cup SeqConfigs
           ELSE {})
 
 Init == /\ cfg \in Configs
